@@ -62,6 +62,31 @@ def ilots_after_l(ctx):
     prefix_only = any(isinstance(c, ast.Call) and isinstance(c.func, ast.Attribute)
                       and c.func.attr in ('lstrip', 'strip', 'removeprefix') for c in ast.walk(il.node)) \
         or any(isinstance(c, ast.Subscript) and isinstance(c.slice, ast.Slice) and norm(c.slice) in ('1:',) for c in ast.walk(il.node))
+    # decided on lot names the parser itself produces (plain, half division, nested division)
+    from ..streval import StrEval, Unsupported
+    comp = next((c for c in ast.walk(il.node) if isinstance(c, (ast.ListComp, ast.GeneratorExp))
+                 and len(c.generators) == 1 and isinstance(c.generators[0].target, ast.Name)
+                 and norm(c.generators[0].iter) == 'self.lots' and not c.generators[0].ifs), None)
+    if comp is not None and not after_l and not all_digits and not prefix_only:
+        var = comp.generators[0].target.id
+        wrong = None
+        try:
+            for lot, want in (('L1', 1), ('L12', 12), ('N2 of L7', 7), ('E2SW of L4', 4), ('S2N2 of L10', 10)):
+                got = StrEval(ctx, il, env={var: lot}).ev(comp.elt)
+                if got != want:
+                    wrong = (lot, got, want)
+                    break
+        except Unsupported as e:
+            if str(e).startswith(('ValueError', 'AttributeError', 'IndexError')):
+                wrong = (lot, str(e), want)
+            else:
+                ctx.undecided('DEFUSE', "ilots reads the number after the 'L' only", f"expression not evaluated ({e})")
+                return
+        ctx.check(wrong is None, 'DEFUSE', "ilots reads the number after the 'L' only", 'witness lot names give their own number',
+                  f"for the lot {wrong[0]!r} (a lot division, as the parser writes it) `{norm(comp.elt)[:60]}` gives {wrong[1]!r}, "
+                  f"not {wrong[2]}: ilots no longer mirrors lots whenever a division with a half is present" if wrong else '',
+                  key="DEFUSE|Tract.ilots|witness", where=il.loc)
+        return
     ctx.tri(after_l, (all_digits or prefix_only) and not after_l, 'DEFUSE', "ilots reads the number after the 'L' only",
             detail_bad=("ilots collects every digit of the lot string: the '2' of a half division ('N2 of L7') ends up in "
                         "the lot number (27), so ilots no longer mirrors lots" if all_digits else
